@@ -531,9 +531,11 @@ _mk("_ShareSum", ("C15", "C04"), lambda B, env: spec.s_share_blocks(B, env, env.
 
 # ---- C04: a difference's count in a valid-count response ------------------------------------
 class StripeCountsValidCounts(Contract):
-    """C04 (statement): 'in a response that carries valid counts for a numeric measure a
-    difference's count is NaN instead' -- for a strand the counts travel
-    StripeMeasures -> CubeMeasures -> _CatCubeCounts -> _Weighted/_UnweightedCounts"""
+    """the count blocks of a strand travel StripeMeasures -> CubeMeasures -> _CatCubeCounts ->
+    _Weighted/_UnweightedCounts: the signed merge of the counts the response carries (the
+    valid counts when present).  'In a response that carries valid counts for a numeric measure
+    a difference's count is NaN instead' (C04) is applied by _Strand.counts /
+    unweighted_counts, like the NaN of population estimates: contract StrandCountsValidCounts"""
 
     name = MS + ":StripeMeasures.(un)weighted_counts.blocks<valid-count response>"
     props = ("C04",)
@@ -571,7 +573,7 @@ class StripeCountsValidCounts(Contract):
                 continue
             cc = CC()
             cc.counts = t
-            exp = spec.s_count_blocks(B, env, cc, diff_nans=cfg["valid"])
+            exp = spec.s_count_blocks(B, env, cc)
             blocks = getattr(sm, nm).blocks
             # base rows and ordinary subtotals / differences separately named obligations
             check_pair(B, nm, blocks, exp, care=(None, lambda s: B.bnot(rows.is_diff(s))))
@@ -838,6 +840,7 @@ class StrandWiring(Contract):
         for prop, mname in sorted(STRAND_VECTOR_PROPS.items()):
             st = new_strand(B)
             B.cut(st, "_measures", som)
+            B.cut(st, "diff_row_idxs", ())  # no difference rows: nothing to blank (StrandCountsValidCounts)
             st.__dict__["_assemble_vector"] = lambda blocks: ("vector", blocks)
             got = getattr(st, prop)
             B.check("vector:" + prop, isinstance(got, tuple) and got[0] == "vector" and got[1] is sent[mname])
@@ -1021,6 +1024,63 @@ class StrandPopulation(Contract):
 
 
 REGISTRY.append(StrandPopulation())
+
+
+class StrandCountsValidCounts(Contract):
+    """C04: _Strand.counts / unweighted_counts are the assembled count blocks; in a response
+    that carries valid counts for a numeric measure the count of every *difference* row is NaN
+    (wherever it sits in the display order), otherwise nothing is blanked"""
+
+    name = CP + ":_Strand.counts / unweighted_counts<valid-count response>"
+    props = ("C04", "C01")
+    tier = "B"
+
+    def configs(self):
+        return [dict(valid=v, m=m) for v in (False, True) for m in ("counts", "unweighted_counts")]
+
+    def size_space(self, cfg):
+        return {"N": [1, 2], "S": [0, 2], "NO": [0, 1, 3]}
+
+    def run(self, B, cfg):
+        N, S, NO = B.size("N", lo=1), B.size("S"), B.size("NO")
+        n, s = int(N), int(S)
+        order = B.order_list("order", NO, -S, N, distinct=True)
+        isdiff = [B.flag("diff%d" % i) for i in range(s)]
+        base = B.tensor("c0", (N,), nonneg=True)
+        subs = B.tensor("c1", (S,), maybe_nan=False)
+        dim = B.stub("dimension", valid_elements=[B.stub("element") for _ in range(n)],
+                     subtotals=[B.stub("subtotal", is_difference=isdiff[i]) for i in range(s)])
+        weighted = cfg["m"] == "counts"
+        mname = "weighted_counts" if weighted else "unweighted_counts"
+        vname = "weighted_valid_counts" if weighted else "unweighted_valid_counts"
+        som = B.stub("measures", **{mname: B.stub(mname, blocks=(base, subs))})
+        cube = B.stub("cube", **{vname: (B.tensor("valid", (N,), nonneg=True) if cfg["valid"] else None)})
+        st = new_strand(B, cube=cube)
+        B.cut(st, "_rows_dimension", dim)
+        B.cut(st, "_measures", som)
+        B.cut(st, "_row_order_signed_indexes", order)
+        got = getattr(st, cfg["m"])
+
+        def flag_of(x):
+            r = False
+            for i in range(s):
+                r = B.ite(x == n + i, isdiff[i], r) if B.mode != "C" else (isdiff[i] if x == n + i else r)
+            return r
+
+        def cell(w):
+            x = wrap(B, B.idx_at(order, w), N + S)
+            v = B.rd(base, x) * 1.0
+            if s > 0:
+                v = B.ite(x < N, v, B.rd(subs, x - N) * 1.0)
+            return B.ite(B.band(cfg["valid"], flag_of(x)), B.NaN(), v) if cfg["valid"] else v
+
+        B.eq_tensor("counts", got, B.spec_tensor((NO,), cell))
+
+    def assumptions(self):
+        return ["bounded: <= 2 elements, <= 2 subtotals, duplicate-free display order of length <= 3 (tier B, symbolic contents)"]
+
+
+REGISTRY.append(StrandCountsValidCounts())
 
 
 class StrandPositions(Contract):
